@@ -252,6 +252,21 @@ void drainCase(Ctx& ctx, int which)
 	if (which == 5 || which == 0) ctx.sample("drain BFS stream " + std::to_string(which) + ": input " + std::to_string(input->size()) + " bytes -> " + std::to_string(exp.out.size()) + " output bytes, " + std::to_string(sizes.size()) + "-operation alphabet, states=" + std::to_string(r.states) + " transitions=" + std::to_string(r.transitions) + " fixpoint=" + (r.fixpoint ? "yes" : "no"));
 }
 
+// all drain schedules on every short input (tiny graphs): first byte f, second byte from a small set, and the 1-byte inputs
+void drainShortInputs(Ctx& ctx, int fFrom, int fTo)
+{
+	std::vector<int> sizes = { 0, 1, 2, 3, 59, 60, 61, 62, 100, 4096, -1 };
+	for (int f = fFrom; f < fTo; ++f) for (int second : { -1, 0x00, 0x55, 0xFF }) {
+		auto input = std::make_shared<std::vector<uint8_t>>();
+		input->push_back(uint8_t(f)); if (second >= 0) input->push_back(uint8_t(second));
+		auto exp = ref::lzhDecode(input->data(), input->size());
+		Drain h{ ctx, input, exp.out, sizes, "input " + mc::hex(input->data(), input->size()) };
+		auto r = mc::bfs(h, ctx, 100000, 100000, "drain-short-" + mc::hex(input->data(), input->size()));
+		ctx.trace(r.transitions);
+		ctx.count("drain/short-input-graphs");
+	}
+}
+
 // ---- E: capacity ----
 std::vector<uint8_t> capacityStream(int which)
 {
@@ -406,6 +421,7 @@ void build(Ctx& ctx)
 	for (int t = 0; t < 32; ++t) gCases.push_back({ 'B', t, ctx.thorough ? 4 : 3 });
 	for (int len = 3; len <= 60; ++len) gCases.push_back({ 'C', len, 0 });
 	for (int s = 0; s < 6; ++s) gCases.push_back({ 'D', s, 0 });
+	for (int f = 0; f < 256; f += 16) gCases.push_back({ 'd', f, f + 16 });
 	for (int s = 0; s < 3; ++s) for (int m = 0; m < 3; ++m) gCases.push_back({ 'E', s, m });
 	gCases.push_back({ 'T', 0, 0 });
 	gCases.push_back({ 'F', 0, 0 });
@@ -421,6 +437,7 @@ void runCase(std::size_t i, Ctx& ctx)
 	case 'B': tokenSequences(ctx, c.a, c.b); if (c.a == 5) ctx.sample("all token sequences starting with M(3,2) up to depth " + std::to_string(c.b) + " over 4 literals and 28 matches"); break;
 	case 'C': matchGrid(ctx, c.a); break;
 	case 'D': drainCase(ctx, c.a); break;
+	case 'd': drainShortInputs(ctx, c.a, c.b); break;
 	case 'E': capacityCase(ctx, c.a, c.b); break;
 	case 'T': capacityTail(ctx); break;
 	case 'F': volumeCase(ctx); break;
